@@ -23,6 +23,48 @@ def x_literal(n):
     return out
 
 
+def check_conflict_terms(rep, rule, fb):
+    def terms(node_iter):
+        t = set()
+        for s in node_iter:
+            q = s.get('callee', {}).get('q', '')
+            if q.endswith('DOMUtils::isDescendant'):
+                t.add('source-ancestry')
+            if q.endswith('DOMUtils::hasIntersection') and any(x.get('callee', {}).get('q', '').endswith('getExitSet') for x in sub(s)):
+                t.add('exit-set-intersection')
+        return t
+    pc = fb.fn('uscxml::conflicts')
+    tp = terms(pc.walk())
+    n_anc = sum(1 for s in pc.walk() if s.get('callee', {}).get('q', '').endswith('DOMUtils::isDescendant'))
+    prep = fb.fn('uscxml::ChartToC::prepare')
+    cif = None
+    for n in prep.walk():
+        if n['k'] == 'IfStmt' and terms(sub(n['c'][0])) >= {'exit-set-intersection'}:
+            cif = n
+    if cif is None:
+        raise AnalysisBroken('ChartToC::prepare: conflict test not found')
+    tc = terms(sub(cif['c'][0]))
+    n_anc_c = sum(1 for s in sub(cif['c'][0]) if s.get('callee', {}).get('q', '').endswith('DOMUtils::isDescendant'))
+    rep.check(tp == tc == {'source-ancestry', 'exit-set-intersection'} and n_anc == n_anc_c == 2, rule, 'conflict terms', locstr(cif),
+              'Predicates.cpp::conflicts uses %s (%d ancestry tests); ChartToC::prepare uses %s (%d)' % (sorted(tp), n_anc, sorted(tc), n_anc_c))
+
+
+
+def check_history_completion(rep, rule, fb):
+    defs = {}
+    for q in ('uscxml::ChartToC::setHistoryCompletion', 'uscxml::LargeMicroStep::getHistoryCompletion', 'uscxml::FastMicroStep::getHistoryCompletion'):
+        defs[q.split('uscxml::')[-1]] = history_features(fb, fb.fn(q))
+    names = sorted(defs)
+    ref = defs[names[0]]
+    rep.sample({'history completion features': {k: {kk: vv for kk, vv in v.items() if kk != 'site'} for k, v in defs.items()}})
+    for k in names:
+        v = defs[k]
+        rep.check(v['deep'] == {'isDescendant(state, parent(history))', '!isHistory(state)'} and v['shallow'] == {'parent(state) == parent(history)', '!isHistory(state)'}, rule, k + '|membership', v['site'],
+                  'deep completion admits a state under %s, shallow completion under %s' % (sorted(v['deep']), sorted(v['shallow'])))
+    rep.check(len({defs[k]['exclusion_live'] for k in names}) == 1, rule, 'exclusion filter agreement', defs[names[0]]['site'],
+              'states covered by another history are left out: %s' % {k: defs[k]['exclusion_live'] for k in names})
+
+
 def history_features(fb, f):
     """membership conditions of the two completion.push_back sites and liveness of the isMember(.., covered) filter"""
     out = {'deep': set(), 'shallow': set(), 'exclusion_live': False, 'site': f.where()}
@@ -212,29 +254,7 @@ def run(rep, tier):
         rep.check(lits == STATE_VOCAB, 'R05.3', '%s|%d' % (q.split('uscxml::')[-1], sum(1 for q2, n2, _ in sites if q2 == q and n2['loc'][1] < n['loc'][1])), locstr(n), 'order is defined over %s' % sorted(lits))
 
     # ---- R05.4
-    def terms(node_iter):
-        t = set()
-        for s in node_iter:
-            q = s.get('callee', {}).get('q', '')
-            if q.endswith('DOMUtils::isDescendant'):
-                t.add('source-ancestry')
-            if q.endswith('DOMUtils::hasIntersection') and any(x.get('callee', {}).get('q', '').endswith('getExitSet') for x in sub(s)):
-                t.add('exit-set-intersection')
-        return t
-    pc = fb.fn('uscxml::conflicts')
-    tp = terms(pc.walk())
-    n_anc = sum(1 for s in pc.walk() if s.get('callee', {}).get('q', '').endswith('DOMUtils::isDescendant'))
-    prep = fb.fn('uscxml::ChartToC::prepare')
-    cif = None
-    for n in prep.walk():
-        if n['k'] == 'IfStmt' and terms(sub(n['c'][0])) >= {'exit-set-intersection'}:
-            cif = n
-    if cif is None:
-        raise AnalysisBroken('ChartToC::prepare: conflict test not found')
-    tc = terms(sub(cif['c'][0]))
-    n_anc_c = sum(1 for s in sub(cif['c'][0]) if s.get('callee', {}).get('q', '').endswith('DOMUtils::isDescendant'))
-    rep.check(tp == tc == {'source-ancestry', 'exit-set-intersection'} and n_anc == n_anc_c == 2, 'R05.4', 'conflict terms', locstr(cif),
-              'Predicates.cpp::conflicts uses %s (%d ancestry tests); ChartToC::prepare uses %s (%d)' % (sorted(tp), n_anc, sorted(tc), n_anc_c))
+    check_conflict_terms(rep, 'R05.4', fb)
 
     # ---- R05.5
     ns, na = _domain.check(rep, 'R05.5', fb, [fb.fn('uscxml::getTransitionDomain'), fb.fn('uscxml::findLCCA')], 'Predicates')
@@ -244,15 +264,4 @@ def run(rep, tier):
     rep.check(bool(uses), 'R05.5', 'getExitSet|uses the transition domain', xs.where(), 'getExitSet derives the exit set from getTransitionDomain: %s' % bool(uses))
 
     # ---- R05.6
-    defs = {}
-    for q in ('uscxml::ChartToC::setHistoryCompletion', 'uscxml::LargeMicroStep::getHistoryCompletion', 'uscxml::FastMicroStep::getHistoryCompletion'):
-        defs[q.split('uscxml::')[-1]] = history_features(fb, fb.fn(q))
-    names = sorted(defs)
-    ref = defs[names[0]]
-    rep.sample({'history completion features': {k: {kk: vv for kk, vv in v.items() if kk != 'site'} for k, v in defs.items()}})
-    for k in names:
-        v = defs[k]
-        rep.check(v['deep'] == {'isDescendant(state, parent(history))', '!isHistory(state)'} and v['shallow'] == {'parent(state) == parent(history)', '!isHistory(state)'}, 'R05.6', k + '|membership', v['site'],
-                  'deep completion admits a state under %s, shallow completion under %s' % (sorted(v['deep']), sorted(v['shallow'])))
-    rep.check(len({defs[k]['exclusion_live'] for k in names}) == 1, 'R05.6', 'exclusion filter agreement', defs[names[0]]['site'],
-              'states covered by another history are left out: %s' % {k: defs[k]['exclusion_live'] for k in names})
+    check_history_completion(rep, 'R05.6', fb)
